@@ -64,7 +64,7 @@ func shapeVerdict(prop string, f *fx.Fixture, maxRecs int) (o *Outcome, nrecs in
 					return viol(prop+"/silent-mismatch", "record %s reads back differently: %s", vt.Render(f.Root, recs[i]), d)
 				}
 			}
-			pf, o := validateFile(prop, f.Root, file, w.Batches, w.PageSize, w.Codec)
+			pf, o := validateFile(prop, f.Root, file, w.Batches, w.effPage(), w.Codec)
 			if o != nil {
 				o.Key = prop + "/bad-file/" + strings.TrimPrefix(o.Key, prop+"/")
 				return o
@@ -108,7 +108,7 @@ func shapeClass(o *Outcome, prop string) string {
 func TestC05(t *testing.T) {
 	nsh, idx := envInt("VERIF_NSHARDS", 1), envInt("VERIF_SHARDIDX", 0)
 	maxRecs := envInt("VERIF_C05_MAXRECS", 120)
-	names := labNames("s")
+	names := append(labNames("s"), labNames("n")...)
 	var firstFail *Outcome
 	var firstCase *ShapeCase
 	for i, n := range names {
